@@ -59,7 +59,7 @@ def generate(rng, tier="quick"):
             for c in cuts + [len(seq)]:
                 groups.append(seq[prev:c])
                 prev = c
-        d = {"via": via, "seq": seq, "groups": groups}
+        d = {"via": via, "seq": seq, "groups": groups, "packages": [rng.pick(("qartod", "qartod", "argo", "axds")) for _ in seq]}
         if via == "store":
             # stream ids / test names per message; some pairs differ only in characters that CF-safe naming replaces
             d["sids"] = [rng.pick(("v", "v", "v.1", "v_1", "v 1")) for _ in seq]
@@ -105,7 +105,8 @@ def deliver(scn, d, vecs):
 
     def via_fn(arrs):
         if d["via"] == "aggregate":
-            objs = [CollectedResult(stream_id="v", package="qartod", test=f"t{j}", function=qartod.spike_test, results=a) for j, a in enumerate(arrs)]
+            pk = d.get("packages") or ["qartod"]
+            objs = [CollectedResult(stream_id="v", package=pk[j % len(pk)], test=f"t{j}", function=qartod.spike_test, results=a) for j, a in enumerate(arrs)]
             return qartod.aggregate(objs)
         return qartod.qartod_compare(arrs)
 
@@ -124,7 +125,7 @@ def deliver(scn, d, vecs):
             msgs.append(
                 ContextResult(
                     stream_id=sid,
-                    results=[CallResult("qartod", test, qartod.spike_test, flags)],
+                    results=[CallResult((d.get("packages") or ["qartod"])[j % len(d.get("packages") or ["qartod"])], test, qartod.spike_test, flags)],
                     subset_indexes=mask,
                     data=np.zeros(int(mask.sum())),
                     tinp=np.array([], dtype="datetime64[ns]"),
